@@ -40,3 +40,20 @@ Theorem copy_schemes_are_the_models :
   scheme_ok copy_hilbert (model_capacity (LHilbert U64)) CalcSizes = true /\
   copy_problems = 0.
 Proof. repeat split; reflexivity. Qed.
+
+(* ---- whole stacks: the converting constructors owning_data_t(const T & o) of the layers that have one ----
+   A wrapper that carries configuration (affine) copies it from the source and converts its backend with the backend's own
+   converting constructor; the interpolators (no configuration) only convert their backend; a storage order takes the
+   source's extents and re-lays the storage out with its copy function into storage of its own capacity.  This is
+   Convert.convert: equal upper layers keep their configuration, the interpolators may differ, and the first pair of
+   storage-order layers is re-laid out. *)
+From Covfie.gen Require Import Gen_Conv.
+Definition model_conv_ctors : list (string * list (string * string)) :=
+  [("affine", [("m_transform", "SameMemberOfSource"); ("m_backend", "BackendOfSource")]);
+   ("linear", [("m_backend", "BackendOfSource")]);
+   ("nearest_neighbour", [("m_backend", "BackendOfSource")]);
+   ("strided", [("m_sizes", "ConfigurationOfSource"); ("m_storage", "ProductAnd_make_strided_copy")]);
+   ("morton", [("m_sizes", "ConfigurationOfSource"); ("m_storage", "CurveAnd_make_morton_copy")]);
+   ("hilbert", [("m_sizes", "ConfigurationOfSource"); ("m_storage", "CurveAnd_make_hilbert_copy")])].
+Theorem converting_constructors_are_the_models : conv_ctors = model_conv_ctors /\ conv_problems = 0.
+Proof. split; reflexivity. Qed.
